@@ -141,7 +141,7 @@ next call, whatever it is, and a collection right after the failure behaves norm
 theorem C17_error_then_normal5 (s : St) (hs : Good3 s.m s.ext) (ops : List UOp5)
     (hg : Ops5Guarded ops s) (op : UOp5) (hop : OpGuard5 (run5 ops s).m (run5 ops s).ext op) (e : Err)
     (hrej : (runOp5 op (run5 ops s).m).1 = .error e) :
-    ((∀ f, op ≠ .loadJson f) → e ≠ .needsReordering) ∧
+    e ≠ .needsReordering ∧
     Good3 (step5 op (run5 ops s)).m (step5 op (run5 ops s)).ext ∧
     (step5 op (run5 ops s)).ext = (run5 ops s).ext ∧
     (∀ w : Int, HeldX (run5 ops s).ext w → (step5 op (run5 ops s)).m.tbl.Mem w ∧
@@ -154,7 +154,7 @@ theorem C17_error_then_normal5 (s : St) (hs : Good3 s.m s.ext) (ops : List UOp5)
   have hl : (step5 op (run5 ops s)).ext = (run5 ops s).ext := rejected5_ledger _ _ op hG hop e hrej
   have hH : Held2 (run5 ops s).ext (run5 ops s).m (step5 op (run5 ops s)).m :=
     step5_heldSame _ _ op hG hop
-  refine ⟨fun hne he => step5_noSignal _ _ op hG hop hne (by rw [hrej, he]), hS, hl,
+  refine ⟨fun he => step5_noSignal _ _ op hG hop (by rw [hrej, he]), hS, hl,
     fun w hw => hH.heldX hw, fun op2 h2 => step5_inv _ _ op2 hS h2, ?_⟩
   obtain ⟨m', he, hp⟩ := collectGarbage_spec _ _ hS.inv hS.exact
   refine ⟨m', he, hp.inv, hS.order.congr hp.sub.vars hp.sub.l2v, ?_,
@@ -167,19 +167,18 @@ theorem C17_every_prefix_good5 (s : St) (hs : Good3 s.m s.ext) (pre post : List 
 
 /-! ### C12 / C11: the two new calls after every history -/
 
-/-- C12: after ANY history (reordering not enabled at that point), `load_json` of ANY content whose
-node lines avoid the id `1`: returning, the state is good for the ledger plus one reference per
+/-- C12: after ANY history (reordering not enabled at that point), `load_json` of ANY content:
+returning, the state is good for the ledger plus one reference per
 returned root; raising, for the unchanged ledger; in both cases every held reference keeps its
 function by name and every declared variable its level -/
 theorem C12_loadJson_every_history5 (s : St) (hs : Good3 s.m s.ext) (ops : List UOp5)
-    (hg : Ops5Guarded ops s) (f : JsonFile) (hoff : (run5 ops s).m.lastLen = none)
-    (hid : ∀ ln ∈ f.nodes, ln.id ≠ 1) :
+    (hg : Ops5Guarded ops s) (f : JsonFile) (hoff : (run5 ops s).m.lastLen = none) :
     Good3 (loadJson f false (run5 ops s).m).2
       (jsonLedger (loadJson f false (run5 ops s).m).1 (run5 ops s).ext) ∧
     Held2 (run5 ops s).ext (run5 ops s).m (loadJson f false (run5 ops s).m).2 ∧
     (∀ (v : String) (i : Nat), (run5 ops s).m.tbl.vars[v]? = some i →
       (loadJson f false (run5 ops s).m).2.tbl.vars[v]? = some i) :=
-  have h := loadJson_step5 _ _ (reachable5_from ops s hs hg) f hoff hid
+  have h := loadJson_step5 _ _ (reachable5_from ops s hs hg) f hoff
   ⟨h.1, h.2.1, h.2.2.2⟩
 
 /-- C11: after ANY history, `copy_vars` from a source with a bijective order whose variables the
